@@ -624,15 +624,25 @@ theorem sys_runFrame' (p : Prog) (hh : Hist) (s : St) (f : Frame)
     · exact typical _ [.flush] (SysOld.of_eq rfl) rfl (fun c hc => by simpa [frameCmds, allCmds, St.push, St.emit] using hc) rfl
         (nocmd _ (by simp [frameCmds])) hwq
     · rename_i a _
-      refine typical _ [.exclActs sys (i + 1)] (SysOld.of_eq (by simp [St.push])) (by simp [St.push]) ?_ (by simp [St.push])
-        (nocmd _ (by simp [frameCmds])) (by simp [St.push]; exact pairs_append _ _ hwq (pairs_enqueue s a))
-      intro c hc
-      simp only [frameCmds, allCmds, List.nil_append, List.mem_append] at hc
-      simp only [allCmds, St.push, List.cons_append, List.nil_append, List.flatMap_cons, frameCmds, List.mem_append, enqueue_wq,
-        enqueue_stack]
-      rcases hc with h | h
-      · exact Or.inl (Or.inl h)
-      · exact Or.inr h
+      split
+      · refine typical _ [.flush, .exclActs sys (i + 1)] (SysOld.of_eq (by simp [St.push])) (by simp [St.push]) ?_ (by simp [St.push])
+          (nocmd _ (by intro g hg; simp at hg; rcases hg with rfl | rfl <;> simp [frameCmds])) (by simp [St.push]; exact pairs_append _ _ hwq (pairs_enqueue s a))
+        intro c hc
+        simp only [frameCmds, allCmds, List.nil_append, List.mem_append] at hc
+        simp only [allCmds, St.push, List.cons_append, List.nil_append, List.flatMap_cons, frameCmds, List.mem_append, enqueue_wq,
+          enqueue_stack]
+        rcases hc with h | h
+        · exact Or.inl (Or.inl h)
+        · exact Or.inr h
+      · refine typical _ [.exclActs sys (i + 1)] (SysOld.of_eq (by simp [St.push])) (by simp [St.push]) ?_ (by simp [St.push])
+          (nocmd _ (by simp [frameCmds])) (by simp [St.push]; exact pairs_append _ _ hwq (pairs_enqueue s a))
+        intro c hc
+        simp only [frameCmds, allCmds, List.nil_append, List.mem_append] at hc
+        simp only [allCmds, St.push, List.cons_append, List.nil_append, List.flatMap_cons, frameCmds, List.mem_append, enqueue_wq,
+          enqueue_stack]
+        rcases hc with h | h
+        · exact Or.inl (Or.inl h)
+        · exact Or.inr h
   | topActs t i =>
     simp only [runFrame, doTopActs]
     split
